@@ -7,17 +7,19 @@
    sizes 1..3 -- are chosen on the fly, the executor, dispatches whose batch comes in any order, the peer acting even in
    the middle of a dispatch, adapt_io / drop / into_inner / second adapt_io / adapt_io of a regular file, fds blocking or
    non-blocking beforehand.  Invariants Inv_C17_Exact / NeverStuck / Woken / Blocking / Released.
-   Topologies: solo (one task, one adapter, external peer), two (one adapter per socket end, as in the crate's tests).
-   The topologies in which TWO futures use ONE adapter at the same time (split: two tasks; join: one task polling a read
-   and a write) are checked separately (asyncio_shared_*.cfg): TLC reports Inv_C17_NeverStuck violated for the code as it
-   is -- finding KF-C17-shared-adapter, spec/ASYNCIO_FINDINGS.md -- and the candidate fix (variant fix_two_wakers) holds.
+   Topologies: solo (one task, one adapter, external peer), two (one adapter per socket end, as in the crate's tests),
+   split (a reader task and a writer task on ONE adapter: futures' split(), Rc<RefCell>) and join (ONE task polling a
+   read and a write on one adapter).  Liveness under weak fairness of the loop thread (mc/asyncio_live*.cfg):
+   Live_C17_Woken, Live_C17_Settles.  The behaviour before commit 0061559 (one waker slot, one interest) is the variant
+   single_waker: TLC reports Inv_C17_NeverStuck (split, join) and Live_C17_Settles (join) violated for it.
 2. Behaviours of the model are replayed on the REAL calloop::io::Async by harness/src/bin/drive_asyncio.rs (UnixStream
    pair with minimal SO_SNDBUF, 1 model byte = 1 block of SO_SNDBUF/2-64 bytes so that the real capacity is exactly
    B = 2 blocks, real Executor, real EventLoop, dispatch(ZERO)):
      * ALL guided behaviours of spec/mc/asyncio_scn.cfg (thorough: asyncio_scn_t.cfg and asyncio_scn_two.cfg), printed by TLC;
      * seeded samples of the big configurations (tlc -simulate on asyncio_sim_{solo,two,split,join}.cfg);
      * seeded generated scenarios with longer byte strings (<= 40 blocks), chunk sizes 1..6 and long dispatch/peer schedules;
-     * curated scenarios (the crate's own tests, EOF/HUP, lifecycle, the shortest scenarios of the finding).
+     * curated scenarios (the crate's own tests, EOF/HUP, lifecycle, adapt_io of an fd that already has a live adapter, the
+       shortest scenarios that hung / span before 0061559).
 3. TLC validates every recorded trace (spec/AsyncIoTrace.tla): each logged step is the model's operator for that step,
    the predicted epoll entry / O_NONBLOCK / occupied slots / task states / woken wakers are compared with the observed
    ones (Mismatch_*), the kernel model with the observed I/O results (Env_*), and the C17 clauses are evaluated on the
@@ -44,26 +46,25 @@ TOPOS = collections.OrderedDict([
     ("split", {"tasks": {"R": 1, "W": 1}, "join": 0}),
     ("join", {"tasks": {"R": 1, "W": 1}, "join": 1}),
 ])
-SHARED = ("split", "join")
 KINDS = {"S": ("read", "write", "readable", "writable"), "R": ("read", "readable"), "W": ("write", "writable")}
 CLAUSE_INVS = ("Inv_C17_Exact", "Inv_C17_NeverStuck", "Inv_C17_Woken", "Inv_C17_Blocking", "Inv_C17_Released")
-VARIANT_CFGS = collections.OrderedDict([   # cfg -> invariant TLC must report
+VARIANT_CFGS = collections.OrderedDict([   # cfg -> invariant(s) TLC must report (with several workers any of them may come first)
     ("asyncio_var_dropfd", "Inv_C17_Released"),
     ("asyncio_var_adaptleak", ("Inv_C17_Released", "Inv_C17_Blocking")),
     ("asyncio_var_adaptleak_b", "Inv_C17_Blocking"),
+    ("asyncio_var_killsother", ("Inv_C17_Released", "Inv_C17_NeverStuck")),
     ("asyncio_var_rearm", "Inv_C17_NeverStuck"),
     ("asyncio_var_interest", "Inv_C17_NeverStuck"),
     ("asyncio_var_flags", "Inv_C17_Blocking"),
     ("asyncio_var_nowake", "Inv_C17_NeverStuck"),
     ("asyncio_var_nowake_w", "Inv_C17_Woken"),
+    ("asyncio_var_single_split", "Inv_C17_NeverStuck"),      # the code before 0061559
+    ("asyncio_var_single_join", "Inv_C17_NeverStuck"),
+    ("asyncio_var_norearm", "Inv_C17_NeverStuck"),
 ])
-SHARED_CFGS = ("asyncio_shared_split", "asyncio_shared_join")
-FIX_CFGS = ("asyncio_fix_split", "asyncio_fix_join", "asyncio_fix_solo")
 LIVE_CFGS = collections.OrderedDict([      # temporal checking (FairSpec): cfg -> property TLC must report violated (None: must hold)
-    ("asyncio_live", None), ("asyncio_live_two", None), ("asyncio_live_join", "Live_C17_Settles"), ("asyncio_live_fix_join", None)])
-# clauses of the finding KF-C17-shared-adapter (several futures on one adapter)
-SHARED_CLAUSES = {"task_stuck_shared_adapter", "task_never_woken_shared_adapter", "parked_not_armed_shared_adapter",
-                  "task_not_woken_on_event_shared_adapter", "task_never_run_shared_adapter", "never_quiescent_shared_adapter"}
+    ("asyncio_live", None), ("asyncio_live_two", None), ("asyncio_live_split", None), ("asyncio_live_join", None),
+    ("asyncio_var_single_live", "Live_C17_Settles")])
 
 
 # ------------------------------------------------------------------------------------------- scenarios
@@ -72,8 +73,8 @@ def scn_from_model(b, topo, sid):
     steps = []
     for s in b["steps"]:
         op = s["op"]
-        if op == "adapt":
-            steps.append({"op": "adapt", "e": s["e"]})
+        if op in ("adapt", "adapt2"):
+            steps.append({"op": op, "e": s["e"]})
         elif op in ("drop", "into_inner"):
             steps.append({"op": op, "e": s["e"]})
         elif op == "spawn":
@@ -118,7 +119,7 @@ def model_scenarios(cfg, topo, work, tag, res, workers=4, timeout=600):
     return scns
 
 
-def sim_scenarios(topo, n, seed, work, res, judge=True):
+def sim_scenarios(topo, n, seed, work, res):
     """seeded sample of behaviours of the big configuration (tlc -simulate)"""
     cfg = "mc/asyncio_sim_%s.cfg" % topo
     meta = os.path.join(work, "simmeta_" + topo)
@@ -128,7 +129,7 @@ def sim_scenarios(topo, n, seed, work, res, judge=True):
     shutil.rmtree(meta, ignore_errors=True)
     out = p.stdout
     bad = re.findall(r"Invariant (\w+) is violated", out)
-    if bad and judge:
+    if bad:
         _model_violation(bad, cfg, out, res, "sim")
     elif "Error:" in out and not bad:
         raise check.ToolError("TLC simulation of %s failed:\n%s" % (cfg, out[-3000:]))
@@ -181,6 +182,8 @@ def random_scenarios(seed, n, topo, tag):
             x = rnd.random()
             if pending_spawn and x < 0.35:
                 steps.append({"op": "spawn", "t": pending_spawn.pop()})
+            elif x > 0.97:
+                steps.append({"op": "adapt2", "e": rnd.choice(ends), "if_live": 1})
             elif x < 0.65 or not peer:
                 steps.append({"op": "dispatch"})
             elif x < 0.82:
@@ -255,16 +258,24 @@ CURATED = [
     {"id": "cur_life_nonblocking", "topo": "solo", "join": 0, "nb0": [1, 0, 1], "tasks": _t("solo", {"S": [["read", 1]]}), "streams": [[0], []],
      "steps": [{"op": "adapt", "e": 3}, {"op": "adapt", "e": 1}, {"op": "spawn", "t": "S"}, {"op": "peer", "k": "w", "n": 1}, D, D,
                {"op": "drop", "e": 1}, {"op": "adapt", "e": 1}, {"op": "into_inner", "e": 1}]},
-    # the finding, shortest scenarios: a read and a write pending on ONE adapter
+    # adapt_io of an fd that already has a live adapter (EEXIST): the live adapter must not be disturbed (64b68d5)
+    {"id": "cur_adapt_twice", "topo": "solo", "join": 0, "nb0": [0, 0, 0], "tasks": _t("solo", {"S": [["read", 1], ["write", 1], ["read", 1]]}),
+     "streams": [[1, 0], [0]],
+     "steps": [{"op": "adapt", "e": 1}, {"op": "spawn", "t": "S"}, D, {"op": "adapt2", "e": 1}, {"op": "peer", "k": "w", "n": 1}, D, D,
+               {"op": "adapt2", "e": 1}, {"op": "peer", "k": "w", "n": 1}, D, D, {"op": "peer", "k": "r", "n": 1}, {"op": "adapt2", "e": 1},
+               {"op": "into_inner", "e": 1}, {"op": "adapt", "e": 1}, {"op": "adapt2", "e": 1}, {"op": "drop", "e": 1}]},
+    # two futures pending on ONE adapter: before 0061559 the first two hung and the third span (one waker slot, one interest)
     {"id": "cur_shared_join", "topo": "join", "join": 1, "nb0": [0, 0, 0],
-     "tasks": _t("join", {"R": [["read", 1]], "W": [["write", 3]  , ["write", 1]]}), "streams": [[1], [0, 1, 1]],
-     "steps": [{"op": "adapt", "e": 1}, {"op": "spawn", "t": "J"}, D, {"op": "peer", "k": "w", "n": 1}, D, D]},
+     "tasks": _t("join", {"R": [["read", 1]], "W": [["write", 3], ["write", 1]]}), "streams": [[1], [0, 1, 1]],
+     "steps": [{"op": "adapt", "e": 1}, {"op": "spawn", "t": "J"}, D, {"op": "peer", "k": "w", "n": 1}, D, D,
+               {"op": "peer", "k": "r", "n": 3}, D, D, {"op": "peer", "k": "r", "n": 3}, {"op": "drop", "e": 1, "if_idle": 1}]},
     {"id": "cur_shared_spin", "topo": "join", "join": 1, "nb0": [0, 0, 0],
      "tasks": _t("join", {"R": [["readable", 0]], "W": [["writable", 0]]}), "streams": [[1], []],
-     "steps": [{"op": "adapt", "e": 1}, {"op": "spawn", "t": "J"}, {"op": "peer", "k": "w", "n": 1}, D]},
+     "steps": [{"op": "adapt", "e": 1}, {"op": "spawn", "t": "J"}, {"op": "peer", "k": "w", "n": 1}, D, D, D, {"op": "into_inner", "e": 1, "if_idle": 1}]},
     {"id": "cur_shared_split", "topo": "split", "join": 0, "nb0": [0, 0, 0],
      "tasks": _t("split", {"R": [["read", 1]], "W": [["write", 3], ["write", 1]]}), "streams": [[1], [0, 1, 1]],
-     "steps": [{"op": "adapt", "e": 1}, {"op": "spawn", "t": "R"}, D, {"op": "spawn", "t": "W"}, D, {"op": "peer", "k": "w", "n": 1}, D, D]},
+     "steps": [{"op": "adapt", "e": 1}, {"op": "spawn", "t": "R"}, D, {"op": "spawn", "t": "W"}, D, {"op": "peer", "k": "w", "n": 1}, D, D,
+               {"op": "peer", "k": "r", "n": 3}, D, D, {"op": "peer", "k": "r", "n": 3}, {"op": "drop", "e": 1, "if_idle": 1}]},
 ]
 
 
@@ -319,41 +330,30 @@ def live_runs(work, res):
             open(cex, "w").write("temporal property violated: %s" % bad)
             res.viol.append({"prop": PROP, "scn": "model:" + cfg, "clauses": ["model:" + ",".join(bad)], "replay": cex, "first_line": 0})
         elif want is not None and want not in bad:
-            res.notes.append("model: %s is NOT reported violated for %s: the busy loop of finding KF-C17-shared-adapter no longer reproduces in the model" % (want, cfg))
+            raise check.ToolError("variant %s is not flagged by TLC (%s expected, %s reported): the property is vacuous for it" % (cfg, want, bad))
         else:
             res.notes.append("TLC %s (weak fairness of the loop thread): %s" % (cfg, "Live_C17_Woken and Live_C17_Settles hold" if want is None else
-                                                                              want + " violated as expected (busy loop, finding KF-C17-shared-adapter)"))
+                                                                              want + " violated as expected (variant single_waker: the busy loop of the code before 0061559)"))
 
 
 def model_runs(tier, work, res):
     """the exhaustive configurations, side by side"""
     quick = tier == "quick"
-    cfgs = ["asyncio_q", "asyncio_q_two", "asyncio_q_life", "asyncio_q_b3"]
-    jobs = [("asyncio_q", 6, 150), ("asyncio_q_b3", 4, 150), ("asyncio_q_life", 3, 150), ("asyncio_q_two", 3, 150)]
+    jobs = [("asyncio_q_split", 4, 150), ("asyncio_q_join", 4, 150), ("asyncio_q_b3", 4, 150), ("asyncio_q", 3, 150),
+            ("asyncio_q_life", 3, 150), ("asyncio_q_two", 3, 150)]
     if not quick:
-        jobs = [("asyncio_t_b3", 6, 700), ("asyncio_t_life", 6, 700), ("asyncio_t", 6, 700), ("asyncio_t_b3n", 4, 700), ("asyncio_t_two", 4, 700)] \
-            + [(c, 2, 300) for c in cfgs] + [(c, 4, 400) for c in FIX_CFGS]
-    jobs += [(c, 1, 120) for c in SHARED_CFGS]
+        jobs = [("asyncio_t_b3", 6, 700), ("asyncio_t_life", 6, 700), ("asyncio_t_join", 6, 700), ("asyncio_t_split", 6, 700), ("asyncio_t", 6, 700),
+                ("asyncio_t_b3n", 4, 700), ("asyncio_t_two", 4, 700)] + [(c, 2, 300) for c, _, _ in jobs]
 
     def one(c, w, t):
         # several JVMs side by side: bound the heap of each (the default is a quarter of the machine's memory)
         return check.tlc_model("MCAsyncIo", "mc/%s.cfg" % c, work, workers=w, timeout=t,
-                               env={"JAVA_TOOL_OPTIONS": "-Xss512m -Xmx%dg" % (5 if c.startswith("asyncio_t") or c.startswith("asyncio_fix") else 2)})
-    with concurrent.futures.ThreadPoolExecutor(max_workers=4) as ex:
+                               env={"JAVA_TOOL_OPTIONS": "-Xss512m -Xmx%dg" % (5 if c.startswith("asyncio_t") else 2)})
+    with concurrent.futures.ThreadPoolExecutor(max_workers=6 if quick else 4) as ex:
         futs = [(c, ex.submit(one, c, w, t)) for c, w, t in jobs]
         results = [(c, f.result()) for c, f in futs]
     for c, r in results:
         res.cmds.append("tlc -config mc/%s.cfg MCAsyncIo.tla" % c)
-        if c in SHARED_CFGS:
-            res.states += r["distinct"]
-            res.transitions += r["generated"]
-            if r["ok"] or "Inv_C17_NeverStuck" not in r["violated"]:
-                res.notes.append("model: %s (several futures on one adapter) is NOT reported violated (%s): finding KF-C17-shared-adapter no "
-                                 "longer reproduces in the model" % (c, r["violated"]))
-            else:
-                res.notes.append("model: TLC reports Inv_C17_NeverStuck violated for %s (two futures on ONE adapter, code as it is): finding "
-                                 "KF-C17-shared-adapter" % c)
-            continue
         _judge_model(r, c, res)
         res.notes.append("TLC %s: %d distinct states, %d generated, %s" % (c, r["distinct"], r["generated"],
                                                                           "no invariant violated" if r["ok"] else "VIOLATED " + ",".join(r["violated"])))
@@ -554,23 +554,22 @@ def engine(prop, tier, seed, work):
         else:
             sub("all_solo", model_scenarios, "asyncio_scn_t", "solo", work, "all_solo")
             sub("all_two", model_scenarios, "asyncio_scn_two", "two", work, "all_two")
-        nsim = 400 if quick else 4000
+        nsim = 300 if quick else 3000
         for topo in TOPOS:
             rs["sim_" + topo] = check.Result()
-            # (the sim configurations of the shared topologies list only the invariants that are expected to hold there)
-            parts["sim_" + topo] = ex.submit(sim_scenarios, topo, nsim if topo not in SHARED else nsim // 4, seed, work, rs["sim_" + topo])
+            parts["sim_" + topo] = ex.submit(sim_scenarios, topo, nsim, seed, work, rs["sim_" + topo])
         got = {k: f.result() for k, f in parts.items()}
         for r in rs.values():
             res.merge(r)
 
-        nrnd = 150 if quick else 2000
+        nrnd = 120 if quick else 1500
         by_topo = collections.OrderedDict((t, []) for t in TOPOS)
         for s in CURATED:
             by_topo[s["topo"]].append(s)
         for name, scns in got.items():
             by_topo[scns[0]["topo"]] += scns
         for topo in TOPOS:
-            by_topo[topo] += random_scenarios(seed, nrnd if topo not in SHARED else nrnd // 3, topo, "rnd%d_%s" % (seed, topo))
+            by_topo[topo] += random_scenarios(seed, nrnd, topo, "rnd%d_%s" % (seed, topo))
 
         # 3. replay on the real crate, validate the traces
         counts = validate_all([(t, s) for t, s in by_topo.items()], work, res)
@@ -702,22 +701,25 @@ def _st_live(cfg, want):
     return run
 
 
-def _st_finding(work=None):
-    """the shortest scenarios of the finding are flagged on the real crate with the _shared_adapter clauses only"""
-    own, work = _own(work, "finding")
+def _st_shared_pass(work=None):
+    """two futures pending on ONE adapter: the curated scenarios that hung / span before 0061559 run clean and every task ends"""
+    own, work = _own(work, "shared")
     try:
-        for topo in SHARED:
+        for topo in ("split", "join"):
             scns = [dict(s, id="st_" + s["id"]) for s in CURATED if s["topo"] == topo]      # own ids: own replay files
             res = check.Result()
-            validate(scns, work, "st_finding_" + topo, res, all_viol=True)
-            got = set(c for v in res.viol for c in v["clauses"])
+            _, tr, _ = run_driver(scns, work, "st_shared_" + topo)
+            validate(scns, work, "st_shared_" + topo, res, trace_override=tr, all_viol=True)
             for v in res.viol:
                 try:
                     os.remove(v["replay"])
                 except OSError:
                     pass
-            assert {"task_stuck_shared_adapter", "task_never_woken_shared_adapter"} <= got <= SHARED_CLAUSES, \
-                "topology %s: clauses %s" % (topo, sorted(got))
+            assert not res.viol, "topology %s: %s" % (topo, [(v["scn"], v["clauses"]) for v in res.viol])
+            for line in open(tr):
+                ev = json.loads(line)
+                if ev["e"] == "end":
+                    assert all(st == "done" for _, st in ev["ts"]), "scenario %s: tasks %s" % (ev["id"], ev["ts"])
         return True
     finally:
         if own:
@@ -772,12 +774,16 @@ SELFTEST = [
      "-> task_not_woken_on_event + task_stuck + task_never_woken",
      _st_trace("lostwake", lambda e, b: e["e"] == "io" and e["woke"], _lose_wake, {"task_not_woken_on_event", "task_stuck", "task_never_woken"},
                truncate=_after_lost_wake)),
-    ("C17 real crate: the shortest scenarios with two futures on ONE adapter are flagged with the *_shared_adapter clauses (finding)", _st_finding),
+    ("C17 trace: after a failed adapt_io of an fd with a live adapter that adapter's epoll entry is gone (the 64b68d5 symptom) "
+     "-> failed_adapt_disturbed_live_adapter + adapter_not_registered",
+     _st_trace("adapt2", lambda e, b: e["e"] == "adapt2" and e["r"] == "err", lambda e: e.update(ep=[[0, 0, 0, 0, 0], e["ep"][1], e["ep"][2]]),
+               {"failed_adapt_disturbed_live_adapter", "adapter_not_registered"})),
+    ("C17 real crate: two futures pending on ONE adapter (split / join: the scenarios that hung or span before 0061559) run clean, every task ends",
+     _st_shared_pass),
 ] + [("C17 model: variant cfg %s -> TLC reports %s violated" % (c, " or ".join(_tup(w))), _st_cfg(c, w)) for c, w in VARIANT_CFGS.items()] \
-  + [("C17 model: %s (code as it is, two futures on one adapter) -> TLC reports Inv_C17_NeverStuck violated" % c, _st_cfg(c, "Inv_C17_NeverStuck"))
-     for c in SHARED_CFGS] \
-  + [("C17 model: candidate fix %s -> no invariant violated" % c, _st_cfg(c, None)) for c in FIX_CFGS] \
-  + [("C17 model (temporal): %s -> %s" % (c, "holds" if w is None else w + " violated (busy loop)"), _st_live(c, w)) for c, w in LIVE_CFGS.items()]
+  + [("C17 model (temporal): %s -> %s" % (c, "holds" if w is None else w + " violated (busy loop of the old code)"), _st_live(c, w))
+     for c, w in LIVE_CFGS.items()] \
+  + [("C17 model: %s (two futures on one adapter, code as it is) -> no invariant violated" % c, _st_cfg(c, None)) for c in ("asyncio_q_split", "asyncio_q_join")]
 
 
 if __name__ == "__main__":
